@@ -198,6 +198,7 @@ Definition site_result (d : des) (u : usage) (r : looked) : mres :=
       else mkMres (Some (eid e)) (ok_if (single_ok u e))
   | LkOver es =>
       match u with
+      | UCallX _ _ => mkMres None MError     (* handled by site_result_x *)
       | UType => mkMres None MError
       | UVal t =>
           match disambiguate_no_actuals es (Some t) with
@@ -231,3 +232,126 @@ Definition char_site_result (lits : option (list des)) (d : des) : mres :=
   | Some l => mkMres None (ok_if (existsb (N.eqb d) l))
   | None => mkMres None MError
   end.
+
+(* ------------------------------------------------------------------------------------------ *)
+(* A call whose actual is itself a use site (an overloaded name or a nested call)              *)
+(* ------------------------------------------------------------------------------------------ *)
+(* ExpressionType of the actual analysed WITHOUT a target type (overloaded.rs `actual_types`) *)
+Inductive etype := ETOne (t : ty) | ETMany (ts : list ty).
+Definition et_possible (et : etype) (p : ty) : bool :=
+  match et with ETOne t => ty_eqb t p | ETMany ts => existsb (fun t => ty_eqb t p) ts end.
+Definition et_actual_ok (et : etype) (e : ent) : bool :=
+  match formal e with Some p => et_possible et p | None => true end.
+
+(* names.rs expression_name_types / name_to_type for the actual; the bool = a diagnostic was pushed
+   although a type came out (an early exit of `disambiguate` followed by a failing check_call);
+   None = EvalError (the enclosing `disambiguate` gives up) *)
+Definition lits_of (es : list ent) : list ent :=
+  filter (fun e => callable_without_actuals e && is_function e) es.
+Definition types_of (es : list ent) : list ty :=
+  flat_map (fun e => match return_type e with Some t => [t] | None => [] end) es.
+Definition call_fits (a : arg) (ttyp : option ty) (e : ent) : bool :=
+  accepts_one_actual e && actual_ok implicit_possible a e && return_ok ttyp e.
+
+(* result: type(s), a diagnostic was pushed, the reference already set on the actual (when it is
+   unambiguous on its own) *)
+Definition actual_type (x : xarg) (ri : looked) : option (etype * bool * option N) :=
+  match x, ri with
+  | XName _ _, LkSingle e => match ekind e with KObj t => Some (ETOne t, false, Some (eid e)) | _ => None end
+  | XName _ _, LkOver es =>
+      match lits_of es with
+      | [] => None
+      | [e] => match return_type e with Some t => Some (ETOne t, false, Some (eid e)) | None => None end
+      | ls => Some (ETMany (types_of ls), false, None)
+      end
+  | XCall _ _ a, LkOver es =>
+      match disambiguate es a None with
+      | Unambiguous g =>
+          match return_type g with
+          | Some t => Some (ETOne t, negb (call_fits a None g), Some (eid g))
+          | None => None
+          end
+      | Ambiguous gs => Some (ETMany (types_of gs), false, None)
+      | Failed => None
+      end
+  | _, _ => None
+  end.
+
+(* check_call of the chosen subprogram analyses the actual WITH the formal's type as target:
+   the reference of the actual and whether that went without a diagnostic *)
+Definition actual_with_type (x : xarg) (ri : looked) (p : ty) : option N * bool :=
+  match x, ri with
+  | XName _ _, LkSingle e => (Some (eid e), match ekind e with KObj t => ty_eqb t p | _ => false end)
+  | XName _ _, LkOver es =>
+      match disambiguate_no_actuals es (Some p) with
+      | Unambiguous e => (Some (eid e), true)
+      | _ => (None, false)
+      end
+  | XCall _ _ a, LkOver es =>
+      match disambiguate es a (Some p) with
+      | Unambiguous g => (Some (eid g), call_fits a (Some p) g)
+      | _ => (None, false)
+      end
+  | _, _ => (None, false)
+  end.
+
+(* stage at which `disambiguate` singled the candidate out: 0 only candidate, 1 formals,
+   2 actual types, 3 return type; `clean` = no diagnostic so far; `pre` = the reference the
+   analysis of the actual without target type has already set *)
+Inductive chosen := Chosen (f : ent) (stage : nat) (clean : bool) (pre : option N) | NotChosen.
+Definition disambiguate_x (all : list ent) (x : xarg) (ri : looked) (t : ty) : chosen :=
+  match all with
+  | [e] => Chosen e 0 true None
+  | _ =>
+    match filter accepts_one_actual (filter is_function all) with
+    | [e] => Chosen e 1 true None
+    | [] => NotChosen
+    | ok_formals =>
+      match actual_type x ri with
+      | None => NotChosen
+      | Some (et, dirty, pre) =>
+        match filter (et_actual_ok et) ok_formals with
+        | [e] => Chosen e 2 (negb dirty) pre
+        | [] => NotChosen
+        | ok_assoc_types =>
+          match filter (return_ok (Some t)) ok_assoc_types with
+          | [e] => Chosen e 3 (negb dirty) pre
+          | [] => NotChosen
+          | _ =>
+            (* the strict matcher equals the implicit one on the actual types of the fragment:
+               nothing is removed, the call stays ambiguous and is reported *)
+            NotChosen
+          end
+        end
+      end
+    end
+  end.
+
+Record xres := mkXres { x_outer : option N; x_inner : option N; x_class : mclass; x_stage : option nat }.
+
+(* `skip` = Some k: the check_call after stage k is dropped (a seeded change: the call resolves, the
+   actual is never analysed against the formal of the chosen subprogram and keeps only the
+   reference it got on its own) *)
+Definition site_result_x_gen (skip : option nat) (d : des) (x : xarg) (t : ty) (ro ri : looked) : xres :=
+  match ro with
+  | LkConflict => mkXres None None MConflict None
+  | LkUndeclared => mkXres None None MUndeclared None
+  | LkSingle e => mkXres (Some (eid e)) None MError None
+  | LkOver es =>
+      if is_operator d then mkXres None None MError None
+      else
+        match disambiguate_x es x ri t with
+        | NotChosen => mkXres None None MError None
+        | Chosen f stage clean pre =>
+            match formal f with
+            | None => mkXres (Some (eid f)) None MError (Some stage)  (* a literal called with an actual *)
+            | Some p =>
+                let skipped := match skip with Some k => Nat.eqb k stage | None => false end in
+                if skipped then mkXres (Some (eid f)) pre (ok_if (clean && return_ok (Some t) f)) (Some stage)
+                else
+                  let '(it, iok) := actual_with_type x ri p in
+                  mkXres (Some (eid f)) it (ok_if (clean && iok && return_ok (Some t) f)) (Some stage)
+            end
+        end
+  end.
+Definition site_result_x := site_result_x_gen None.
